@@ -32,7 +32,8 @@ Record rmeth := {
   rm_args : list nat;          (* user-method argument j := message field (nth j) *)
   rm_callee : nat;             (* the user method the arm invokes *)
   rm_reply_own : bool;         (* the arm sends the result on the message's own oneshot *)
-  rm_loud_reply : bool }.      (* actor-side reply on a dropped oneshot panics *)
+  rm_loud_reply : bool;        (* actor-side reply on a dropped oneshot panics *)
+  rm_msg : bool }.             (* the handle method sends a message at all (false: constructor, static delegate, helpers) *)
 
 Record rmodel := {
   r_cap : option nat;
@@ -195,7 +196,9 @@ Definition step_client (m : rmodel) (s : st) (t : nat) : option st :=
       match meth m k, slot_get (slots s) cid with
       | Some rm, Some (SFull v) =>
         Some (s ;; with_hist (hist s ++ [ERet cid]) ;; put s t (ret c Ready cid (Returned v)))
-      | Some rm, Some STxDropped =>
+      | Some rm, Some SEmpty => None                        (* the reply is still pending: the caller waits *)
+      | Some rm, Some _ =>
+        (* the sender inside the message was dropped: the wait fails *)
         if rm_loud_wait rm then Some (client_panics s t c cid)
         else Some (s ;; with_hist (hist s ++ [ERet cid]) ;; put s t (ret c Ready cid (Returned dv)))
       | _, _ => None
@@ -212,8 +215,8 @@ Definition step_client (m : rmodel) (s : st) (t : nat) : option st :=
         (* the handle is consumed together with the actor *)
         Some (s ;; with_senders (pred (senders s)) ;; with_hist (hist s ++ [ERet cid])
                 ;; put s t (mk_client Ready (c_prog c) (pred (c_nh c)) (c_seq c) (c_rets c ++ [(cid, Consumed (sem_slf k a vs))])))
-      | Some STxDropped => Some (client_panics s t c cid)
-      | _ => None
+      | Some SEmpty | None => None
+      | Some _ => Some (client_panics s t c cid)
       end
     end
   end.
